@@ -78,7 +78,9 @@ def load(dotted: str, rebind: dict | None = None, pre: dict | None = None) -> ty
     exec(compile(tree, path, "exec"), m.__dict__)
     if rebind:
         for k, v in rebind.items():
-            if getattr(v, "__sx_only_if_scipy__", False) and not str(getattr(m.__dict__.get(k), "__module__", "")).startswith("scipy"):
+            cur = m.__dict__.get(k)
+            origin = str(getattr(cur, "__module__", None) or (getattr(cur, "__name__", "") if isinstance(cur, types.ModuleType) else ""))
+            if getattr(v, "__sx_only_if_scipy__", False) and not origin.startswith("scipy"):
                 continue
             m.__dict__[k] = v
     m.__sx_source_hash__ = hashlib.sha256(src.encode()).hexdigest()[:16]
